@@ -505,3 +505,27 @@ func first(a, _ []byte) []byte { return a }
 
 //@ spec NodeOK(o) = implies(atype(o) == typeid(node4), Inv4(as(node4, o))) && implies(atype(o) == typeid(node16), Inv16(as(node16, o))) && implies(atype(o) == typeid(node48), Inv48(as(node48, o))) && implies(atype(o) == typeid(node256), Inv256(as(node256, o)))
 //@ spec rootOK(r) = r.pointer == nil || okRef(r)
+
+//@ spec LeafOK_alpha(o) = as(alphaLeafNode, o).key.obj != nil && allocated(as(alphaLeafNode, o).key.obj) && 0 <= as(alphaLeafNode, o).key.idx && as(alphaLeafNode, o).key.idx + as(alphaLeafNode, o).len <= blen(as(alphaLeafNode, o).key.obj)
+//@ spec HeapOK_alpha() = forallref(o, implies(inT(o) && allocated(o) && o != nil, NodeOK(o) && implies(atype(o) == leafT(), LeafOK_alpha(o))))
+//@ spec WF1_alpha(t) = t != nil && allocated(t) && atype(t) == typeid(alphaSortedTree) && leafT() == typeid(alphaLeafNode) && rootOK(t.root) && HeapOK_alpha()
+
+//@ func (*alphaLeafNode[V]).getKey
+//@   inline
+//@ func (*alphaLeafNode[V]).getTransformKey
+//@   inline
+//@ func (AlphabeticalOrderKey[K]).Transform
+//@   inline
+//@ func (AlphabeticalOrderKey[K]).Restore
+//@   inline
+
+//@ func (*alphaSortedTree[K,V]).Search
+//@   opt bind K=[]byte
+//@   opt casts on
+//@   opt extent on
+//@   requires WF1_alpha(t)
+//@   ensures[pure] frame()
+//@   loop 1 (depth)
+//@     invariant 0 <= depth && depth <= len(keyS)
+//@     invariant n.pointer == nil || okRef(n)
+//@     decreases len(keyS) - depth
